@@ -30,7 +30,9 @@ EXCS = [['ValueError', ['x']], ['KeyError', ['k']], ['Boom', ['a', 1]], ['Boom2'
         ['ZeroDivisionError', ['division by zero']], ['UnicodeDecodeError', ['utf-8', '__b__', 0, 1, 'bad']], ['FileNotFoundError', [2, 'nf', 'name']],
         ['RuntimeError', ['a', 'b', 'c']], ['StopIteration', [5]], ['TimeoutError', ['late']], ['ConnectionResetError', [104, 'reset']],
         # classes whose constructor rejects a lone str with something other than TypeError (validating / looking up / reading attributes)
-        ['StatusError', [404]], ['CodeError', ['E2']], ['RespError', [503, 'busy']]]
+        ['StatusError', [404]], ['CodeError', ['E2']], ['RespError', [503, 'busy']],
+        # an exception object that is falsy (a collection-like error with no entries)
+        ['ErrorList', []], ['ErrorList', ['e1', 'e2']]]
 EXITS = [None, 0, 1, 3, 'bye', '', 0.0, [], False, True, {}, 256, 257, -1]  # only None and the integer 0 mean success (256 is 0 only for the OS)
 ACCESSORS = ['join', 'result', 'exception', 'done', 'exitcode', 'wait', 'as_completed']
 
@@ -105,8 +107,9 @@ def gen_cases(tier, seed):
         sig = [c for c in sig if c not in logk]
         wide = [c for c in usual if c['ending'][0] == 'exit' and isinstance(c['ending'][1], int) and not isinstance(c['ending'][1], bool) and c['ending'][1] in (256, 257, -1)
                 and c['first'] in ('join', 'exception')]
+        wide += [c for c in usual + thr if c['ending'][:2] == ['raise', 'ErrorList'] and c['first'] in ('join', 'wait') and c not in wide]
         usual = [c for c in usual if c not in wide]
-        cases = thr + wide + logk + [c for c in usual if c not in timed][:70] + must[:6] + [c for c in must[6:] if c['ending'][0] in ('no-target', 'raise-unrebuildable', 'return-unrebuildable')] + [c for c in sig if c not in rare and c not in timed][:34] + rare[:12] + timed
+        cases = [c for c in thr if c not in wide] + wide + logk + [c for c in usual if c not in timed][:70] + must[:6] + [c for c in must[6:] if c['ending'][0] in ('no-target', 'raise-unrebuildable', 'return-unrebuildable')] + [c for c in sig if c not in rare and c not in timed][:34] + rare[:12] + timed
     else:
         cases = thr + prc + sig
     rng.shuffle(cases)
